@@ -415,10 +415,71 @@ pub extern "C" fn chk_e2e(ptr: *const u8, n: usize) -> u32 {
         (0, 1) => e2e(SmlReader::with_static_buffer::<512>().from_slice(s), s, choices),
         (0, _) => e2e(SmlReader::with_vec_buffer().from_slice(s), s, choices),
         (1, 0) => e2e(SmlReader::from_iterator(s.iter().copied().filter(|_| true)), s, choices),
-        (1, 1) => e2e(SmlReader::with_static_buffer::<512>().from_iterator(s.iter()), s, choices),
+        (1, 1) => e2e(SmlReader::with_static_buffer::<512>().from_iterator(s.iter().filter(|_| true)), s, choices),
         (1, _) => e2e(SmlReader::with_vec_buffer().from_iterator(s.iter()), s, choices),
         (_, 0) => e2e(SmlReader::from_reader(s), s, choices),
         (_, 1) => e2e(SmlReader::with_static_buffer::<512>().from_reader(s), s, choices),
         (_, _) => e2e(SmlReader::with_vec_buffer().from_reader(s), s, choices),
     }
+}
+
+/// C10 over a non-blocking `io::Read`: the source may answer WouldBlock / Interrupted between any two bytes (script as in
+/// chk_faults, restricted to ops 0..2); the caller simply calls `next::<File>()` again. The files obtained must be exactly
+/// those of the hand composition (decoder + complete::parse) over the same bytes.
+/// Input: [F][F script bytes][l1 lo][l1 hi] ‖ file1 ‖ file2
+#[no_mangle]
+pub extern "C" fn chk_e2e_nb(ptr: *const u8, n: usize) -> u32 {
+    let x = unsafe { input(ptr, n) };
+    if x.is_empty() {
+        return 0;
+    }
+    let f = x[0] as usize;
+    if x.len() < 3 + f {
+        return 0;
+    }
+    let script = &x[1..1 + f];
+    for s in script {
+        assume(*s <= 2);
+    }
+    let l1 = x[1 + f] as usize | ((x[2 + f] as usize) << 8);
+    let body = &x[3 + f..];
+    if body.len() < l1 {
+        return 0;
+    }
+    let mut stream = spec_encode(&body[..l1]);
+    stream.extend_from_slice(&spec_encode(&body[l1..]));
+    let (evs, fin) = push_events::<Vec<u8>>(&stream);
+    let src = Faulty { data: &stream, pos: 0, script, si: 0, ended: false };
+    let mut rd = SmlReader::with_static_buffer::<256>().from_reader(src);
+    let mut k = 0usize;
+    let mut calls = 0usize;
+    loop {
+        calls += 1;
+        if calls > evs.len() + script.len() + 3 {
+            fail(1060);
+            break;
+        }
+        match rd.next::<File>() {
+            None => break,
+            Some(Err(ReadParsedError::IoErr(e, c))) => {
+                if e.kind() == ErrorKind::WouldBlock {
+                    if c != 0 {
+                        fail(1061);
+                    }
+                    continue; // try again: reading resumes where it stopped
+                }
+                fail(1062);
+                break;
+            }
+            Some(r) => {
+                expect_parsed(r, evs.get(k), 1070);
+                k += 1;
+            }
+        }
+    }
+    if k != evs.len() || fin.is_some() {
+        fail(1063);
+    }
+    cover(101);
+    k as u32
 }
